@@ -14,7 +14,8 @@ RULE = ("(lattice) complete enumeration of dt in 12 values (decimal literals, 1/
         "enumeration case = one (dt,start,form) with a block of 50 values of m, evaluations count lattice points. (public) "
         "Hypothesis-generated points, 50% drawn from the lattice points whose floating-point quotient falls below m, m<=40, "
         "run through Tempo, MeanFieldTempo, PtTempo, compute_dynamics, compute_dynamics_with_field, "
-        "compute_gradient_and_dynamics (record_all True/False) and PtTebd. (containers) generated add() histories in any "
+        "compute_gradient_and_dynamics (record_all True/False) and PtTebd; Tempo and MeanFieldTempo also reach the final end time "
+        "after 0-2 earlier compute() calls (end_time = start_time, less than one step, mid-way). (containers) generated add() histories in any "
         "order with repeated times on Dynamics / MeanFieldDynamics: axis sorted, every state/field stays with its time. Oracle R-times: n = whole steps that fit with an "
         "end on the grid up to rounding included (exact rational arithmetic + 1e-9 step tolerance), len = n+1, times[k] = "
         "start+k dt within 4 ulp, sorted, states aligned with a longer run, len(process tensor) = n, record_all=False "
@@ -131,7 +132,10 @@ def s_public(draw, tier):
         m = draw(st.integers(2, 40))
         form = draw(st.sampled_from(FORMS))
     return {"dt_index": di, "start": start, "m": m, "form": form,
-            "api": draw(st.sampled_from(["tempo", "mean-field", "pt+dynamics", "gradient", "pt-tebd"]))}
+            "api": draw(st.sampled_from(["tempo", "mean-field", "pt+dynamics", "gradient", "pt-tebd"])),
+            # compute() calls made BEFORE the one with the final end time (continuable methods): end_time == start_time,
+            # less than one step, somewhere in the middle
+            "approach": draw(st.lists(st.sampled_from(["start", "sub-dt", "mid"]), max_size=2))}
 
 
 def _check_axis(out, tag, times, start, dt, n):
@@ -168,8 +172,15 @@ def run_public(case):
     system = oqupy.System(0.5 * sx + 0.2 * sz)
     rho0 = operators.spin_dm("up")
     e_long = start + (n + 2.5) * dt
+    approach = [{"start": start, "sub-dt": start + 0.4 * dt, "mid": start + (n // 2 + 0.5) * dt}[a] for a in case.get("approach", [])]
+    approach = [a for a in approach if a <= e]
+    if approach and api in ("tempo", "mean-field"):
+        out.label("approached-in-%d-calls" % (len(approach) + 1), *["approach=" + a for a in case["approach"]])
     if api == "tempo":
-        d = oqupy.Tempo(system, bath, par, rho0, start).compute(e, progress_type="silent")
+        tmp = oqupy.Tempo(system, bath, par, rho0, start)
+        for a in approach:
+            tmp.compute(a, progress_type="silent")
+        d = tmp.compute(e, progress_type="silent")
         if _check_axis(out, "tempo", d.times, start, dt, n):
             full = oqupy.Tempo(system, bath, par, rho0, start).compute(e_long, progress_type="silent")
             out.check_close("tempo/aligned", np.array(d.states), np.array(full.states)[:n + 1], ALIGN_TOL * (n + 1))
@@ -178,7 +189,12 @@ def run_public(case):
         sysf = oqupy.TimeDependentSystemWithField(lambda t, a: 0.5 * sz + 0.3 * (a * sp + np.conj(a) * sm))
         mfs = oqupy.MeanFieldSystem([sysf], lambda t, st_, a: -0.2j * a - 0.1 * a - 0.3j * np.trace(st_[0] @ sm) + 0.1 * t)
         mk = lambda: oqupy.MeanFieldTempo(mfs, [bath], par, [rho0], 0.3 + 0.1j, start_time=start)
-        d = mk().compute(e, progress_type="silent")
+        tmp = mk()
+        for a in approach:
+            tmp.compute(a, progress_type="silent")
+        d = tmp.compute(e, progress_type="silent")
+        if len(d.fields) != len(d.times) or len(d.system_dynamics[0].times) != len(d.times):
+            out.fail("mean-field/aligned-lengths", f"{len(d.times)} times, {len(d.fields)} fields, {len(d.system_dynamics[0].times)} system times")
         if _check_axis(out, "mean-field", d.times, start, dt, n):
             full = mk().compute(e_long, progress_type="silent")
             out.check_close("mean-field/aligned-fields", np.array(d.fields), np.array(full.fields)[:n + 1], ALIGN_TOL * (n + 1))
